@@ -87,6 +87,17 @@ def h_unary(ctx, fname, D, P, shape, via='algopy', params=None, cplx=False, layo
                 # too) when the value is non-negative
                 dom = 'reciprocal' if Fraction(params['r']) < 0 else 'exp'
             x0, ex = x0_for_complex(ctx, dom, tag) if cplx else x0_for(ctx, dom, tag)
+            if cplx and params and params.get('im_between'):
+                # the imaginary part of the base point in a given band (e.g. beyond pi/2, where cos(Im x0) < 0)
+                lo, hi = params['im_between']
+                im = x0.im if ctx.mode == 'sym' else x0.imag
+                ctx.assume(im > lo)
+                ctx.assume(im < hi)
+            if cplx and params and params.get('re_between'):
+                lo, hi = params['re_between']
+                re_ = x0.re if ctx.mode == 'sym' else x0.real
+                ctx.assume(re_ > lo)
+                ctx.assume(re_ < hi)
             X[(0, p) + i] = x0
             info[(p,) + i] = ex
             for d in range(1, D):
@@ -383,6 +394,14 @@ def units(tier, seed):
     cD, cP = (3, 1) if tier == 'quick' else (6, 2)
     for fname in ['exp', 'expm1', 'log', 'log1p', 'sqrt', 'sin', 'cos', 'sinh', 'cosh', 'reciprocal', 'square', 'tan', 'tanh']:
         add('%s/complex/D%d,P%d' % (fname, cD, cP), 'h_unary', fname=fname, D=cD, P=cP, shape=(2,) if tier != 'quick' else (), cplx=True)
+    for fname in ['exp', 'sin', 'cos', 'sinh', 'cosh', 'tan', 'tanh']:
+        add('%s/complex, 2 < Im x0 < 4/D3,P1' % fname, 'h_unary', fname=fname, D=3, P=1, shape=(), cplx=True, params={'im_between': (2, 4)})
+        add('%s/complex, -4 < Re x0 < -2/D3,P1' % fname, 'h_unary', fname=fname, D=3, P=1, shape=(), cplx=True, params={'re_between': (-4, -2)})
+    # arguments of magnitude 1e-13: zeroth coefficients compared RELATIVELY with NumPy (harness of C10); separates
+    # log1p(x) from log(1 + x), expm1(x) from exp(x) - 1, ...
+    for fname in ['log1p', 'expm1', 'sin', 'tan', 'arcsin', 'arctan', 'sinh', 'tanh', 'erf', 'dawsn']:
+        out.append(Unit('C01/%s/argument of magnitude 1e-13, relative comparison/D2,P1' % fname, 'symx.props.c10', 'h_zeroth',
+                        {'opname': fname, 'D': 2, 'P': 1, 'scale': '1/10000000000000'}, {'property': PROP, 'float_rel': 1e-11}))
     for n in (-2, 2, 3, 4):
         add('pow_int(%d)/complex/D%d,P%d' % (n, cD, cP), 'h_unary', fname='powi', D=cD, P=cP, shape=(), params={'n': n}, cplx=True)
     add('pow_real(symbolic r)/D%d,P2' % powD, 'h_unary', fname='powr', D=powD, P=2, shape=(2,))
